@@ -386,7 +386,12 @@ def check_effect(op, res, mb, ma, prev, st, before_bytes):
         sec = st.get("_sec")
         return None  # handled by check_targeted (needs the cursor section): see judge_targeted
     if name == "rename":
-        return None  # C07's oracle covers the rename semantics; C08 has been checked on the result
+        # C07's rules, applied to the object before and after (C08 has been checked on the result)
+        if rename_hook is not None and before_bytes is not None:
+            r = rename_hook(before_bytes, op, res, st["bytes"])
+            if r:
+                return ("C07", r)
+        return None
     if name in ("insert", "insertq"):
         s = {"Q": -1, "A": 0, "N": 1, "R": 2}[op[1]] if name == "insert" else -1
         if s == -1:
@@ -412,6 +417,9 @@ def check_effect(op, res, mb, ma, prev, st, before_bytes):
             return ("C09", "insertion did not append exactly the given record at the end of its section")
         return None
     return None
+
+
+rename_hook = None     # set by properties_cfg: (bytes before, op, result, bytes after) -> reason or None
 
 
 def judge_full(case, a, keep_going=False):
@@ -596,6 +604,8 @@ def walk_rules(case, a):
         if final != survivors:
             return "section %s holds %s after the walk, the survivors in order are %s" % (sec, final, survivors)
         for n in survivors:
+            if len(original) > 1000:
+                break      # sections of tens of thousands of records are not walked to the end
             if n not in yielded[sec]:
                 return "surviving record %s was never yielded" % bytes.fromhex(n).decode("latin1")
         cnt = mf.counts[1 + s] if s >= 0 else mf.counts[0]
